@@ -24,7 +24,7 @@ SHAPES = [
     ("remap", [[1, 0]], False, Q, dict(params=dict(m=1))),
     ("remap", [[0, 0], [0, 0]], False, Q, dict(params=dict(m=2), budget=900, shard=7)),
     ("remap", [[1, 0]], False, T, dict(params=dict(m=2), budget=2400, shard=7)),
-    ("remap", [[1, 0], [0, 0]], False, T, dict(params=dict(m=2), budget=3000, shard=10)),
+    ("remap", [[1, 0], [0, 0]], False, Q, dict(params=dict(m=2), budget=3000, shard=10)),
     ("remap", [[0, 0]] * 3, False, T, dict(params=dict(m=1), budget=1800, shard=6)),
     ("remap", [[1, 0], [0, 0]], False, T, dict(params=dict(m=1), budget=1800, shard=6)),
     ("remap", [[1, 1], [0, 1]], False, T, dict(params=dict(m=1), budget=2400, shard=7)),
